@@ -1517,3 +1517,16 @@ Proof.
     destruct (rotate_go _ _ _ _ _) as [[ps1 f1]| | |]; cbn [bind] in E; try discriminate.
     destruct (set_optimistic _ _ _) as [[ps2 f2]| | |]; cbn [bind] in E; try discriminate. injection E as <- _. reflexivity.
 Qed.
+
+(* a tick that rotates IS the rotation (on the state with the advanced round): every clause proved about
+   change_conn_state -- slots to interested peers, rate order, the broadcast map -- applies to it *)
+Theorem timer_tick_is_rotation m order pick m' fl :
+  timer_tick m order pick = Ok (m', Some fl) ->
+  let r := (m_round m + 1) mod MAX_OPTIMISTIC_ROUNDS in
+  change_conn_state (mkmgr (m_status m) (m_peers m) (m_candidates m) r (m_extracted m) (m_plens m)) order
+                    (if r =? 0 then pick else []) = Ok (m', fl).
+Proof.
+  intros H. cbv zeta. unfold timer_tick in H. destruct (timer_rates m); [|discriminate].
+  destruct (change_conn_state _ order _) as [[m2 fl2]| | |]; cbn [bind] in H; try discriminate.
+  cbn [fst snd] in H. injection H as <- <-. reflexivity.
+Qed.
